@@ -25,7 +25,7 @@ DET = {
  "C10-2b": (["C10"], "MemDep warm variant on mvp7-0/2"),
  "C11-1": (["C11"], "label after a bare nop/ret"),
  "C11-2": (["C11"], "zeropad decoration"),
- "C12-1": ([], "NOT DETECTED: needs a misaligned lw/lh straddling a word boundary; spec/RV32.tla treats misaligned accesses as ill-formed programs (the properties quantify over naturally aligned accesses), so no family generates one"),
+ "C12-1": (["C12"], "Misaligned family (lw/lh at odd offsets inside one line) on MVP-1: cycles differ from the ledger; missed until the specification gave misaligned accesses a defined (flagged) semantics"),
  "C12-2": (["C12"], "Timing family: sw of 0 over zero memory vs another value on MVP-4"),
  "C13-1": (["C13"], "LineCache histories with an eviction-warning push"),
  "C13-2": (["C13"], "KVLru histories"),
